@@ -5,6 +5,7 @@ import AquaDrv.TraceOps
 import AquaDrv.AstJson
 import AquaDrv.ExecOp
 import AquaDrv.MiscOps
+import AquaDrv.C26Ops
 /-! Line-protocol driver of the model: one JSON request per line on stdin, one JSON answer per line. -/
 open Lean Aqua
 
@@ -18,6 +19,8 @@ def dispatch (j : Json) : Json :=
   | "trace_ops" => opTraceOps j
   | "exec" => opExec j
   | "sig_merge" => opSigMerge j
+  | "json_float_queries" => opJsonFloatQueries j
+  | "json_parse" => opJsonParse j
   | "ping" => Json.mkObj [("pong", true)]
   | op => Json.mkObj [("error", s!"unknown op {op}")]
 
